@@ -24,6 +24,31 @@ claim('C18', 'exhaustive enumeration of all pairs/triples of a version-string al
       'alphabet (more than 3 groups, other suffixes, invalid strings) are not covered.',
       'DESIGN.md 5 C18')
 
+RT_NOTE = ('Trusts ref/neutral.py, ref/observe.py, ref/catalogue.py%s. Bounds: the 258-payload catalogue, <= 2 payloads deviating '
+           'from the benign default at once (8 slots of a fixed skeleton: grid meta, column meta, two cells, list element, dict value, '
+           'nested-grid cell and meta), 1-2 grids per document, nesting <= 3; pint mode not explored.')
+
+claim('C01', 'deviation-bounded exhaustive enumeration of catalogue payloads over grid slots; dump -> own parse -> neutral comparison',
+      'Every catalogue payload in every slot (d=1, complete) and every pair of payloads in every pair of slots (d=2; reduced catalogue in the '
+      'quick tier) of a skeleton grid, under ver 2.0 and 3.0, single grid and two-grid documents, str and bytes input, plus the scalar API for '
+      'every payload: hszinc.dump then hszinc.parse, result compared kind-by-kind and value-by-value with the neutral form of what was '
+      'built. Exhaustive within those bounds; replaces the one random XStr-only grid of the suite.',
+      RT_NOTE % '', 'DESIGN.md 5 C01')
+claim('C02', 'deviation-bounded exhaustive enumeration of catalogue payloads over grid slots; JSON dump -> own parse -> neutral comparison',
+      'Same enumeration as C01 through the JSON writer and reader, input given as text, bytes and pre-decoded object, single object and array '
+      'of grids; numbers compared at the documented six decimals, everything else exactly.',
+      RT_NOTE % '', 'DESIGN.md 5 C02')
+claim('C04', 'deviation-bounded exhaustive enumeration; ZINC writer output judged by an independent strict reader',
+      'Every case of C01 is dumped by hszinc and read by ref/refzinc.py, a hand-written recursive-descent reader of the ZINC grammar for the '
+      'declared version that shares no code with hszinc: the text must be accepted (header, one column line, one line per row, exact cell '
+      'count, only legal escapes, INF/-INF/NaN, 3.0 constructs only under 3.0) and must denote the grid that was built. Sees compensating '
+      'writer/reader faults a same-library round trip cannot.',
+      RT_NOTE % ', ref/refzinc.py (grammar: DESIGN.md Appendix A; lenient where the spec detail could not be re-read offline)', 'DESIGN.md 5 C04')
+claim('C06', 'deviation-bounded exhaustive enumeration; JSON writer output judged by an independent strict reader',
+      'Every case of C02 is dumped by hszinc, decoded with json.loads and read by ref/refjson.py (strict on shape, type prefixes and lexical '
+      'forms, version-appropriate Remove spelling, array for lists of grids); the recovered grid must equal the grid that was built.',
+      RT_NOTE % ', ref/refjson.py (DESIGN.md Appendix B)', 'DESIGN.md 5 C06')
+
 
 def main():
     props = [json.loads(l) for l in open(os.path.join(HERE, 'properties.jsonl'))]
